@@ -82,6 +82,11 @@ func c03Cases() []c03Case {
 	for policy := 0; policy <= 4; policy++ {
 		out = append(out, c03Case{12, "s", "cert", "ecdsa", false, false, policy, "resume-after-unfinished-key-exchange"})
 	}
+	for _, ver := range []int{12, 13} {
+		out = append(out, c03Case{ver, "c", "cert", "ecdsa", true, false, 0, "expires-between-connections"})
+		out = append(out, c03Case{ver, "s", "cert", "ecdsa", false, false, 4, "expires-between-connections"})
+		out = append(out, c03Case{ver, "s", "cert", "ecdsa", false, false, 3, "expires-between-connections"})
+	}
 	for _, auth := range []string{"psk", "ecdhepsk"} {
 		for _, honest := range []string{"c", "s"} {
 			for _, dev := range c03DevsPSK {
@@ -232,6 +237,11 @@ func c03Run(rc *RunCtx, params any) {
 	s := rc.S
 	rc.R.Class = fmt.Sprintf("v%d/%s/%s/%s", p.Ver, p.Honest, p.Auth, p.Dev)
 	rc.R.NonTriv = p.Dev != "none"
+	if p.Dev == "expires-between-connections" {
+		c03Expiry(rc, p)
+
+		return
+	}
 	if p.Dev == "resume-after-unfinished-key-exchange" {
 		rc.Note("proto", "dtls12")
 		c03ResumeUnfinished(rc, p)
@@ -664,4 +674,67 @@ func c03ResumeUnfinished(rc *RunCtx, p *C03Params) {
 	}
 	pair2.Teardown()
 	pair.Teardown()
+}
+
+// c03Expiry: the peer's certificate is valid during a first connection and has expired when, a
+// quarter of a virtual hour later, the same peer connects again with the same chain: the first
+// connection is the control (it must succeed), the second must fail. Whatever an endpoint
+// remembers from the first validation, validity is a statement about now.
+func c03Expiry(rc *RunCtx, p *C03Params) {
+	s := rc.S
+	var cspec, sspec EpSpec
+	if p.Ver == 12 {
+		cspec, sspec = certPair12(suiteECDSAGCM, "srv-ecdsa")
+	} else {
+		cspec, sspec = pair13(suite13AES128)
+	}
+	rc.Note("proto", protoTag(cspec, sspec))
+	cspec.VerifyPeer, cspec.UseRoots, cspec.ServerName = true, 1, ServerName
+	if p.Honest == "c" {
+		sspec.Cert = "srv-short"
+	} else {
+		cspec.Cert = "cli-short"
+		sspec.ClientAuth, sspec.UseRoots, sspec.VerifyPeer = p.Policy, 1, true
+	}
+	run := func(tag string) (*Pair, bool) {
+		n := NewSimNet(s, p.Rules)
+		pair, err := NewPairNamed(s, n, cspec, sspec, &Env{}, "c"+tag, "s"+tag)
+		if err != nil {
+			rc.Violate("harness", "config: %v", err)
+
+			return nil, false
+		}
+		pair.StartHandshakes(30 * time.Second)
+		s.Run(pair.BothDone, time.Minute)
+
+		return pair, true
+	}
+	p1, ok := run("1")
+	if !ok {
+		return
+	}
+	first := p1.BothOK()
+	p1.Teardown()
+	if !first {
+		rc.Note("control-failed", fmt.Sprintf("c=%v s=%v", p1.CHs.Err, p1.SHs.Err))
+		s.Probe("expiry-control-failed")
+
+		return
+	}
+	s.Probe("control-ok")
+	s.Run(func() bool { return false }, 15*time.Minute)
+	p2, ok := run("2")
+	if !ok {
+		return
+	}
+	hs := p2.CHs
+	if p.Honest == "s" {
+		hs = p2.SHs
+	}
+	if hs.Done && hs.Err == nil {
+		rc.Violate(fmt.Sprintf("established-without-credential:v%d:%s:%s", p.Ver, p.Honest, p.Dev), "a certificate that was valid during a first connection and expired five virtual minutes before the second one was accepted again by the honest %s (policy %d)", map[string]string{"c": "client", "s": "server"}[p.Honest], p.Policy)
+	} else {
+		s.Probe("must-fail:" + p.Dev)
+	}
+	p2.Teardown()
 }
